@@ -154,6 +154,58 @@ def SN(t, al=None):
     return S(canon(t), al)
 
 
+def canon_comm(t):
+    """canon() plus a fixed operand order for the commutative operators + * & | ^ (strings only: used to compare two
+    spellings of the same expression, never to evaluate)"""
+    if isinstance(t, list):
+        return [canon_comm(x) for x in t]
+    if not isinstance(t, dict):
+        return t
+    r = {k: canon_comm(v) for k, v in t.items()}
+    if r.get("k") == "bin":
+        op = r.get("op")
+        if op in (">", ">="):
+            r["l"], r["r"] = r["r"], r["l"]
+            r["op"] = "<" if op == ">" else "<="
+        elif op in ("==", "!=", "+", "*", "&", "|", "^"):
+            if S(r["l"]) > S(r["r"]):
+                r["l"], r["r"] = r["r"], r["l"]
+    return r
+
+
+def SC(t, al=None):
+    """canonical string with comparisons normalised and commutative operands ordered; aliases are expanded first so that the
+    ordering sees the expanded operands"""
+    def expand(x):
+        if isinstance(x, list):
+            return [expand(y) for y in x]
+        if not isinstance(x, dict):
+            return x
+        if al and x.get("k") == "ref" and x.get("n") in al and x.get("vk") in ("local", "param"):
+            return expand(al[x["n"]])
+        return {k: expand(v) for k, v in x.items()}
+    return S(canon_comm(expand(t) if al else t))
+
+
+def cmp_pred(a, op, b, al=None):
+    """guard predicate for the comparison `a op b` (operand strings as S() prints them) that recognises every spelling:
+    a < b, b > a, and -- answering "neg" -- the complementary comparison b <= a / a >= b; likewise ==/!= in either operand
+    order. To be used with Fn.guard_edges / guarded_positions."""
+    if op in (">", ">="):
+        a, b, op = b, a, ("<" if op == ">" else "<=")
+    if op in ("==", "!="):
+        x, y = sorted([a, b])
+        pos, neg = "(%s %s %s)" % (x, op, y), "(%s %s %s)" % (x, "!=" if op == "==" else "==", y)
+    else:
+        pos = "(%s %s %s)" % (a, op, b)
+        neg = "(%s %s %s)" % (b, "<=" if op == "<" else "<", a)
+
+    def p(t):
+        s = SN(t, al)
+        return True if s == pos else ("neg" if s == neg else False)
+    return p
+
+
 def lit(cond):
     """normalise a branch condition to (tree, polarity)"""
     pol = True
@@ -571,7 +623,13 @@ class Fn:
                             v2 = v
                     else:
                         l2, v2 = lt, v
-                    if v2 == want and l2 is not None and pred(l2):
+                    if l2 is None:
+                        continue
+                    r = pred(l2)
+                    # a predicate may answer "neg": the literal is the negation of what it looks for (see cmp_pred)
+                    if r == "neg":
+                        v2 = not v2
+                    if r and v2 == want:
                         out.add((bid, i))
         return out
 
